@@ -217,6 +217,10 @@ OddRespKeys == {"-1", "-12", "+200", "007", "0x10", "1e2", "99999999999999999999
 OddPathKeys == {"", "nolead", "x-", "X-ext", "/", "//"}
 MapTyped(k, fl) == {kw \in Free(k, fl) : LET vt == VTypeOf(k, kw) IN Len(vt) > 4 /\ SubSeq(vt, 1, 4) = "map:"}
 OddKeyCases ==
+  \* dependencies whose value is neither a schema nor a non-empty list of names
+  {Case("oddkeys", <<>>, "schema", "", <<[name |-> "dependencies", vt |-> "map:schemaOrStrings", cls |-> c]>>)
+     : c \in {"depEmptyList", "depNull", "depNumber", "depString", "depEmptyObj"}}
+  \cup
   {Case("oddkeys", <<>>, "responses", "", <<[name |-> n, vt |-> "kind:response", cls |-> "obj"]>>) : n \in OddRespKeys}
   \cup {Case("oddkeys", <<>>, "paths", "", <<[name |-> n, vt |-> "kind:pathItem", cls |-> "obj"]>>) : n \in OddPathKeys}
   \cup UNION {{Case("oddkeys", <<>>, kf[1], kf[2], <<[name |-> kw, vt |-> VTypeOf(kf[1], kw), cls |-> "mapEmptyKey"]>>) : kw \in MapTyped(kf[1], kf[2])}
@@ -226,6 +230,8 @@ OddKeyCases ==
 \* form), the library reads them as extensions; checked for determinism / fixed point only
 ExtCaseCases ==
   UNION {{Case("extcase", <<>>, kf[1], kf[2], <<[name |-> "X-Upper", vt |-> "any", cls |-> "str"]>>),
+          \* ... next to a member that a decode / encode round drops and whose text looks like the start of an extension name
+          Case("extcase", <<>>, kf[1], kf[2], <<[name |-> "X-Upper", vt |-> "any", cls |-> "true"], [name |-> "junk", vt |-> "any", cls |-> "xdashStr"]>>),
           Case("extcase", <<>>, kf[1], kf[2], <<[name |-> "x-both", vt |-> "any", cls |-> "str"], [name |-> "X-Both", vt |-> "any", cls |-> "num"]>>)}
           : kf \in {x \in KindFlavours : AdmitsExt(x[1], x[2])}}
 
